@@ -6,6 +6,7 @@ usage: pty_session.py <binary> <session-file> [<arg> ...]
 The binary gets a terminal as stdin / stdout / stderr (isatty() is true for all three), with echo and output
 post-processing switched off, so that what it writes arrives byte for byte. The lines of the session file are typed
 one at a time, each after the program has shown its prompt (`>>> `) or after a short wait; then end-of-input (^D).
+A line consisting of `^C` stands for the interrupt key.
 Everything the program wrote is copied to stdout; the last line on stderr is `status=<exit code or -signal>`.
 A wall-clock limit of 60 s ends a program that does not react (status=timeout).
 """
@@ -63,6 +64,13 @@ for l in lines:
     if not alive or time.time() > deadline:
         break
     try:
+        if l == b"^C":
+            # the interrupt key: the terminal driver sends SIGINT to the program
+            time.sleep(0.2)
+            os.write(fd, b"\x03")
+            time.sleep(0.3)
+            alive = read_until_prompt(0.3)
+            continue
         os.write(fd, l + b"\n")
     except OSError:
         alive = False
